@@ -663,6 +663,9 @@ func (l *SimListener) Close() error {
 	l.nclosed++
 	if l.nclosed == 1 {
 		close(l.closed)
+		if sc := l.rt.C.Sched; sc != nil && sc.ListenerCloseErr {
+			return errors.New("sim: listener close: device busy")
+		}
 		return nil
 	}
 	return net.ErrClosed
